@@ -189,6 +189,7 @@ def run(chk):
     specs = gen(chk)
     built = [build(chk.rng, *p) for p in specs]
     results = clientrun.run_scenarios(chk, [b[0] for b in built])
+    clientrun.warm_correspondence(chk, [b[0] for b in built])
     for (site, auth, missing, thr, kinds, cs), (s, sigs, accept, pre), (impl, model, mcase) in zip(specs, built, results):
         chk.seen(mcase, any(k != "valid" for k in kinds))
         chk.count(site)
